@@ -2032,7 +2032,11 @@ class IMAPClientCommand:
             # hierarchy, is not the name of one of the user's mailboxes.
             #
             rel = name[1:] if name.startswith("/") else name
-            if rel.startswith("/") or rel == ".." or rel.startswith("../"):
+            if (
+                rel.startswith("/")
+                or rel in (".", "..")
+                or rel.startswith("../")
+            ):
                 raise BadSyntax(f"invalid mailbox name: '{mbox_name}'")
             return name
         else:
